@@ -4,17 +4,22 @@ package main
 // coq/theories/Check/C16.v).  Gen builds a second binary of this harness with the Go
 // race detector and runs it as child processes (`vh-race c16stress <descriptor>`).
 // A child regenerates shared-object programs from its seed; for every program it
-//   1. builds the shared objects sequentially with the P1 interpreter (definitions
-//      with fields, factories derived via With/WithOptions and shared contexts,
-//      errors, plus a shared resolver, a shared JSON unmarshaler, shared documents
-//      and shared restored errors),
-//   2. computes the result of every operation sequentially (the prediction),
-//   3. forgets the source memo (VerifResetSourceState: source reading is then used
-//      for the first time by the goroutines),
-//   4. releases N goroutines by a barrier; each runs every operation against the
-//      SHARED objects and compares each result with the prediction.
-// Results of operations that create errors are compared without the frames of the
-// new error's own stack (they belong to the goroutine), but with its head frame.
+//   1. builds TWO identical copies of the shared objects sequentially, by the same call
+//      sites (so their stacks are equal) and with constructor calls only - no accessor
+//      of a created object is called: definitions with fields, factories derived via
+//      With/WithOptions and shared contexts, errors; plus, per copy, a shared resolver,
+//      shared JSON unmarshalers, shared documents and shared restored errors,
+//   2. computes the result of every operation sequentially on copy 0 (the prediction;
+//      three times - an operation that is not deterministic sequentially is still run
+//      by the goroutines but not compared),
+//   3. forgets the source memo (VerifResetSourceState: source reading is then used for
+//      the first time by the goroutines),
+//   4. releases N goroutines by a barrier; each runs every operation against the SHARED
+//      objects of copy 1 - which nothing has used before - starting with the operations
+//      that read source files, and compares each result with the prediction.
+// Results of operations that create errors are compared without the frames of the new
+// error's own stack (they belong to the goroutine), but with its head frame when that
+// lies inside the operation itself.  %#v is not used (it prints addresses).
 
 import (
 	"context"
@@ -673,11 +678,11 @@ func c16Ops(w *world, docs map[int][]byte) []c16Op {
 			}
 			for f, src := range e.Stack().FramesAndSource() {
 				if !strings.Contains(f.Func, "c16Ops.func") {
-					return "first frame is the caller's (StackSkip)" // still read, not compared
+					break // StackSkip: the first frame is the caller's; its source is still read, not compared
 				}
 				return fmt.Sprintf("%s:%d\n%s", filepath.Base(f.File), f.Line, src)
 			}
-			return "no frames"
+			return "first frame: none or the caller's"
 		})
 		add("new", fmt.Sprintf("d%d.New", i), func() string { return c16Snap(d.New("fresh"), defs, false) })
 		add("errorf", fmt.Sprintf("d%d.Errorf", i), func() string { return c16Snap(d.Errorf("v=%v q=%q", sharedArgs...), defs, false) })
